@@ -60,12 +60,24 @@ def _run_dual(ctx, spec, rng):
     cplx = bool(rng.integers(0, 2))
     a_ops = [gen.rmat(rng, (dout, din), cplx) for _ in range(r)]
     b_ops = a_ops if cls == "cp" else ([(-1) ** i * a for i, a in enumerate(a_ops)] if cls == "hp" else [gen.rmat(rng, (dout, din), cplx) for _ in range(r)])
+    if spec[1] % 8 == 5 and din == dout and din > 1:
+        # nearly (but not) Hermitian Kraus operators: H + eps N, eps far above rounding and far below any "is it Hermitian" tolerance
+        eps = float(rng.choice([1e-6, 1e-7]))
+        a_ops = [gen.hermitian(rng, din, cplx) + eps * gen.rmat(rng, (din, din), cplx) for _ in range(r)]
+        b_ops = a_ops if cls == "cp" else [gen.hermitian(rng, din, cplx) + eps * gen.rmat(rng, (din, din), cplx) for _ in range(r)]
+        cls = cls + "-near-hermitian"
+    mag = float([1.0, 1.0, 1e-6, 1e3, 1e-3, 1.0][spec[1] % 6])  # maps of very small / large magnitude are maps too
+    if mag != 1.0:
+        same = b_ops is a_ops
+        a_ops = [mag * a for a in a_ops]
+        b_ops = a_ops if same else [mag * b for b in b_ops]
     x, y = gen.rc(rng, din, din), gen.rc(rng, dout, dout)
     phi_x = ref.apply_kraus(x, a_ops, b_ops)
     lhs = hs(y, phi_x)
-    nt = din != dout or cplx or cls != "cp"
+    nt = din != dout or cplx or not cls.startswith("cp")
+    natural = float(np.linalg.norm(x) * np.linalg.norm(y) * sum(np.linalg.norm(a) * np.linalg.norm(b) for a, b in zip(a_ops, b_ops)))  # magnitude of <Y, Phi(X)>
     forms = {"pairs": [[a, b] for a, b in zip(a_ops, b_ops)], "choi": ref.choi_of(a_ops, b_ops, din)}
-    if cls == "cp":
+    if cls.startswith("cp"):
         forms["flat"] = list(a_ops)
         forms["column"] = [[a] for a in a_ops]
         if r != 2:  # [[K1, K2]] would be read as the pair map X -> K1 X K2^*
@@ -77,22 +89,22 @@ def _run_dual(ctx, spec, rng):
         if d is FAILED:
             continue
         dual_y = _apply_any(d, y, dout, din)
-        scale = 1 + abs(lhs)
-        ctx.check("O1:adjoint-identity", None, dev=abs(lhs - hs(dual_y, x)) / scale, tol=1e-9, sig=(name, din, dout, cls, cplx), nt=nt,
+        scale = natural
+        ctx.check("O1:adjoint-identity", None, dev=abs(lhs - hs(dual_y, x)) / scale, tol=1e-9, sig=(name, din, dout, cls, cplx, mag), nt=nt,
                   mech="dual_channel:adjoint-identity", detail={"form": name, "din": din, "dout": dout, "cls": cls})
         if name == "choi":
             ctx.sample("O1:adjoint-identity", {"form": name, "d_in": din, "d_out": dout, "class": cls, "lhs": lhs, "rhs": hs(dual_y, x)})
         dd = ctx.call(dual_channel, d, dims=[dout, din]) if name == "choi" else ctx.call(dual_channel, d)
         if dd is not FAILED:
             back = _apply_any(dd, x, din, dout)
-            dev = float(np.abs(back - phi_x).max()) / (1 + float(np.abs(phi_x).max()))
-            ctx.check("O2:dual-dual", None, dev=dev, tol=1e-9, sig=(name, din, dout, cls), nt=nt, mech="dual_channel:involution",
+            dev = float(np.abs(back - phi_x).max()) / (natural / max(np.linalg.norm(y), 1e-300))
+            ctx.check("O2:dual-dual", None, dev=dev, tol=1e-9, sig=(name, din, dout, cls, mag), nt=nt, mech="dual_channel:involution",
                       detail={"form": name, "din": din, "dout": dout, "cls": cls})
     if din == dout and din > 1:  # Choi form with dims omitted (square map)
         d = ctx.call(dual_channel, forms["choi"])
         if d is not FAILED:
             dual_y = _apply_any(d, y, dout, din)
-            ctx.check("O1:adjoint-identity", None, dev=abs(lhs - hs(dual_y, x)) / (1 + abs(lhs)), tol=1e-9, sig=("choi-nodims", din, cls, cplx), nt=nt,
+            ctx.check("O1:adjoint-identity", None, dev=abs(lhs - hs(dual_y, x)) / natural, tol=1e-9, sig=("choi-nodims", din, cls, cplx), nt=nt,
                       mech="dual_channel:adjoint-identity-default-dims", detail={"din": din, "cls": cls})
 
 
